@@ -22,7 +22,7 @@ def prop_of_failure(name):
     return None
 
 TERMINATION = ('DEADLOCK', 'LIVELOCK', 'STEP_LIMIT', 'HANG')
-CRASHES = ('ASAN', 'SIGNAL', 'CRASH', 'TRAP_EXIT', 'TRAP_ABORT', 'TRAP_ASSERT')
+CRASHES = ('ASAN', 'SIGNAL', 'CRASH', 'TRAP_EXIT', 'TRAP_ABORT', 'TRAP_ASSERT', 'TRAP_ERROR_PACKET', 'TRAP_LIB_ERROR')
 
 def failure_site(f):
     d = f['detail']
